@@ -27,14 +27,17 @@ ASSUMPTIONS = [
 ]
 
 
+_TOK = {"name": "ac"}
+
+
 def setup(tier):
-    tk.get(("ac",))
+    tk.get(("ac", "hs"))
 
 
 def _get(text):
     from eyecite import get_citations
 
-    return call(get_citations, text)
+    return call(get_citations, text, tokenizer=tk.get((_TOK["name"],))[_TOK["name"]])
 
 
 def _one_full(text, reporter=None):
@@ -90,6 +93,15 @@ def eval_variation(case):
     return res
 
 
+def _read_as_written(c, w):
+    g = c.groups
+    return (g.get("volume"), g.get("reporter"), g.get("page")) == (w[0], w[1], w[2])
+
+
+def _ambiguous(r):
+    return len({(e.reporter_key, e.reporter_name, e.name) for e, _ in inv.users(r)}) > 1
+
+
 TEMPLATES = [
     "{v} {r} {p}",
     "Foo v. Bar, {v} {r} {p} ({y})",
@@ -109,7 +121,9 @@ def eval_pool(case):
 
     res = Res()
     cites = []
-    for text in case["texts"]:
+    written = []
+    for item in case["texts"]:
+        text, w = (item["t"], item.get("w")) if isinstance(item, dict) else (item, None)
         cs = _get(text)
         if isinstance(cs, Raised) or not cs:
             continue
@@ -117,6 +131,7 @@ def eval_pool(case):
         c = [x for x in cs if type(x).__name__ != "ReferenceCitation"]
         if c:
             cites.append((text, c[-1]))
+            written.append(tuple(w) if w else None)
     interesting = False
     n = len(cites)
     eq = [[False] * n for _ in range(n)]
@@ -138,6 +153,10 @@ def eval_pool(case):
                 continue
             if eq[i][j] != eq[j][i]:
                 res.v("not-symmetric", f"{a!r} vs {b!r}")
+            # writer-based: the same volume, reporter string and page written in two contexts is the same document
+            if written[i] is not None and written[i] == written[j] and not set(written[i][2]) <= {"_"} and not eq[i][j] \
+                    and type(a) is type(b) and _read_as_written(a, written[i]) and _read_as_written(b, written[j]):
+                res.v(f"same-written-citation-not-equal:{type(a).__name__}", f"{ti!r} -> {a!r} vs {tj!r} -> {b!r}")
             if eq[i][j] and hash(a) != hash(b):
                 res.v("equal-but-hash-differs", f"{a!r} vs {b!r}")
             if eq[i][j] and type(a) is not type(b):
@@ -165,6 +184,14 @@ def eval_pool(case):
 
 
 def evaluate(case):
+    _TOK["name"] = case.get("tokenizer", "ac")
+    try:
+        return _evaluate(case)
+    finally:
+        _TOK["name"] = "ac"
+
+
+def _evaluate(case):
     if case.get("kind") == "variation":
         return eval_variation(case)
     if case.get("kind") == "pattern-pool":
@@ -211,6 +238,7 @@ def _pool(draw):
     reps = draw(st.lists(st.sampled_from([
         ["U.S.", "U. S."], ["F.2d", "F. 2d", "F.2d."], ["S. Ct.", "S.Ct."], ["A.2d", "A. 2d"], ["Cal.App.4th", "Cal. App. 4th"],
         ["N.E.2d", "N. E. 2d", "N.E. 2d"], ["Wash.", "Wash."], ["Rob.", "Rob."], ["So. 2d", "So.2d"], ["Thompson", "Thompson"],
+        ["S.C.", "S.C."], ["Mon.", "Mon."], ["Cust. Ct.", "Cust. Ct."], ["Hill", "Hill"],
     ]), min_size=1, max_size=3))
     if draw(st.integers(0, 3)) == 0:
         v, e = draw(st.sampled_from(inv.single_candidate_variations()))
@@ -225,12 +253,18 @@ def _pool(draw):
         y = draw(st.sampled_from(["1999", "1950", "2005"]))
         pin = str(draw(st.integers(1, 400)))
         if k < 6:
-            texts.append(draw(st.sampled_from(TEMPLATES)).format(v=v, r=r, p=p, y=y, pin=pin))
+            tmpl = draw(st.sampled_from(TEMPLATES))
+            texts.append({"t": tmpl.format(v=v, r=r, p=p, y=y, pin=pin), "w": [v, r, p, "full", y if ("{y}" in tmpl and _ambiguous(r)) else ""]})
         elif k < 8:
-            texts.append(draw(st.sampled_from(SHORT_T)).format(v=v, r=r, p=p if p.isdigit() else "7"))
+            p2 = p if p.isdigit() else "7"
+            texts.append({"t": draw(st.sampled_from(SHORT_T)).format(v=v, r=r, p=p2), "w": [v, r, p2, "short"]})
+        elif k == 8 and draw(st.booleans()):
+            # the bare citation touching typographic characters (context must not matter)
+            q = draw(st.sampled_from([("“", "”"), ("—", ""), ("", "—x"), ("‘", "’"), ("(", ")")]))
+            texts.append({"t": f"{q[0]}{v} {r} {p}{q[1]}", "w": [v, r, p, "full", ""]})
         else:
             texts.append(draw(st.sampled_from(OTHER)))
-    return {"kind": "pool", "texts": texts}
+    return {"kind": "pool", "texts": texts, "tokenizer": draw(st.sampled_from(["ac", "ac", "hs"]))}
 
 
 def _pattern_pool_items():
